@@ -25,12 +25,23 @@ class Script:
         self.timeout = timeout
         self.stuck: str | None = None
         self.unexpected: list[tuple] = []
+        self.late = 0
 
     def gate(self, fname: str, event: str, kw_json: dict, logfn) -> None:
         me = (event, fname, json.dumps(kw_json, sort_keys=True))
         with self.cv:
-            ok = self.cv.wait_for(lambda: self.stuck is not None or (self.pos < len(self.items) and self.items[self.pos] == me),
-                                  timeout=self.timeout)
+            if self.pos >= len(self.items):
+                # the script is exhausted (the model's behaviour ended, e.g. with Raise): tasks that were submitted but never
+                # scheduled run now, unscheduled; their events are logged in arrival order after the scripted ones
+                self.late += 1
+                logfn()
+                return
+            ok = self.cv.wait_for(lambda: self.stuck is not None or self.pos >= len(self.items)
+                                  or self.items[self.pos] == me, timeout=self.timeout)
+            if ok and self.stuck is None and self.pos >= len(self.items):
+                self.late += 1
+                logfn()
+                return
             if not ok or self.stuck is not None:
                 if self.stuck is None:
                     nxt = self.items[self.pos] if self.pos < len(self.items) else None
